@@ -8,7 +8,7 @@ import (
 
 func init() {
 	register(&Property{ID: "C09", Run: runC09,
-		Explain: "Gate table (T6): each score threshold of C09 is one normalised comparison between a score value (peerScore.Score or the heartbeat's memoising closure) and a named threshold field, with a named effect, decided by edge-cut dominance on go/cfg — including the boundary operator (< vs <=). Rows: G1 AcceptFrom (direct => AcceptAll; score<graylist => AcceptNone; else the gater), G2/G3 IHAVE/IWANT ignored below gossipThreshold before any effect, G4 emitGossip recipients (>= gossipThreshold, not excluded, not direct, mesh-capable), G5/G6 flood-publish and floodsub recipients (direct or >= publishThreshold), G7 fanout selection filters (>= publishThreshold, not direct), G8 fanout drop (< publishThreshold or left topic), G9 GRAFT from negative score refused with PRUNE, doPX=false on every refusing path that does not know the score to be non-negative, backoff added, G10 heartbeat prunes negative scores with noPX, G11/G12 PX only at/above acceptPXThreshold and only with a valid signed record matching the peer ID, G13 gater result set within {AcceptAll,AcceptControl}, G14 handleIncomingRPC arms (AcceptNone returns before everything; AcceptControl reaches HandleRPC on every path and never pushMsg), G15 threshold validation orderings. NOT decided: that Score is computed correctly (C10), timing of 'next heartbeat'.",
+		Explain: "Gate table (T6): each score threshold of C09 is one normalised comparison between a score value (peerScore.Score or the heartbeat's memoising closure) and a named threshold field, with a named effect, decided by edge-cut dominance on go/cfg — including the boundary operator (< vs <=). Rows: G1 AcceptFrom (direct => AcceptAll; score<graylist => AcceptNone; else the gater), G2/G3 IHAVE/IWANT ignored below gossipThreshold before any effect, G4 emitGossip recipients (>= gossipThreshold, not excluded, not direct, mesh-capable), G5/G6 flood-publish and floodsub recipients (direct or >= publishThreshold), G7 fanout selection filters (>= publishThreshold, not direct), G8 fanout drop (< publishThreshold or left topic), G9 GRAFT from negative score refused with PRUNE, doPX=false on every refusing path that does not know the score to be non-negative, backoff added, G10 heartbeat prunes negative scores with noPX, G11/G12 PX only at/above acceptPXThreshold and only with a valid signed record matching the peer ID, G13 gater result set within {AcceptAll,AcceptControl}, G14 handleIncomingRPC arms (AcceptNone returns before everything; AcceptControl reaches HandleRPC on every path and never pushMsg), G15 threshold validation orderings. (audit round) G9: score freshness in handleGraft; G12: the record's signing key belongs to the advertised peer ID. NOT decided: that Score is computed correctly (C10), timing of 'next heartbeat'.",
 		Assume:  []string{"peerScore.Score returns the peer's score (C10)", "single-definition locals are not modified between definition and test (checked by reaching definitions)"},
 		Mutants: []Mutant{
 			{Name: "graylist-le", File: "gossipsub.go", Old: "if gs.score.Score(p) < gs.graylistThreshold {", New: "if gs.score.Score(p) <= gs.graylistThreshold {", Expect: "G1"},
@@ -23,7 +23,10 @@ func init() {
 			{Name: "fanout-keep-le", File: "gossipsub.go", Old: "\t\t\tif !ok || score(p) < gs.publishThreshold {", New: "\t\t\tif !ok || score(p) <= gs.publishThreshold {", Expect: "G8"},
 			{Name: "graft-negative-keeps-px", File: "gossipsub.go", Old: "\t\t\t// but we won't PX to them\n\t\t\tdoPX = false\n", New: "\t\t\t// but we won't PX to them\n", Expect: "G9"},
 			{Name: "graft-dhi-before-score", File: "gossipsub.go", Old: "\t\t// check the score\n\t\tif score < 0 {", New: "\t\tif len(peers) >= gs.params.Dhi && !gs.outbound[p] {\n\t\t\tprune = append(prune, topic)\n\t\t\tgs.addBackoff(p, topic, false)\n\t\t\tcontinue\n\t\t}\n\n\t\t// check the score\n\t\tif score < 0 {", Expect: "G9"},
-			{Name: "join-promotes-negative", File: "gossipsub.go", Old: "\t\t\tif gs.score.Score(p) < 0 || doBackOff {\n\t\t\t\tdelete(gmap, p)", New: "\t\t\tif gs.score.Score(p) < gs.publishThreshold || doBackOff {\n\t\t\t\tdelete(gmap, p)", Expect: "G9"},
+			{Name: "join-promotes-negative", File: "gossipsub.go", Old: "\t\t\tif gs.score.Score(p) < 0 || doBackOff || direct {\n\t\t\t\tdelete(gmap, p)", New: "\t\t\tif gs.score.Score(p) < gs.publishThreshold || doBackOff || direct {\n\t\t\t\tdelete(gmap, p)", Expect: "G9"},
+			{Name: "graft-stale-score", File: "gossipsub.go", Old: "\t\t\t// the penalty has lowered the score; the remaining GRAFTs are judged with the new one\n\t\t\tscore = gs.score.Score(p)\n", New: "", Expect: "G9"},
+			{Name: "px-record-key-unchecked", File: "gossipsub.go", Old: "\t\t\tif !p.MatchesPublicKey(envelope.PublicKey) {\n", New: "\t\t\tif false && !p.MatchesPublicKey(envelope.PublicKey) {\n", Expect: "G12"},
+			{Name: "px-record-key-checked-against-sender", File: "gossipsub.go", Old: "\t\t\tif !p.MatchesPublicKey(envelope.PublicKey) {\n", New: "\t\t\tif !rec.PeerID.MatchesPublicKey(envelope.PublicKey) && len(rec.Addrs) == 0 {\n", Expect: "G12"},
 			{Name: "heartbeat-negative-no-nopx", File: "gossipsub.go", Old: "\t\t\t\tprunePeer(p)\n\t\t\t\tnoPX[p] = true\n", New: "\t\t\t\tprunePeer(p)\n", Expect: "G10"},
 			{Name: "heartbeat-negative-le", File: "gossipsub.go", Old: "\t\t\tif score(p) < 0 {\n\t\t\t\tgs.logger.Debug(\"HEARTBEAT: Prune peer with negative score\"", New: "\t\t\tif score(p) < gs.gossipThreshold {\n\t\t\t\tgs.logger.Debug(\"HEARTBEAT: Prune peer with negative score\"", Expect: "G10"},
 			{Name: "px-threshold-le", File: "gossipsub.go", Old: "\t\t\tif score < gs.acceptPXThreshold {", New: "\t\t\tif score <= gs.acceptPXThreshold && score < 0 {", Expect: "G11"},
@@ -331,8 +334,9 @@ func runC09(c *RuleCtx) {
 			})
 		}
 	}
+	checkScoreFreshness(c, "G9", fnHandleGraft)
 	// G9 also covers Join: fanout members with negative score are not promoted (shared with C07 R07.1)
-	checkJoinPromotion(c, "G9", true, false)
+	checkJoinPromotion(c, "G9", true, false, false)
 	// ---------- G10 heartbeat negative-score prune
 	if f := c.MustFn("G10", fnHeartbeat); f != nil {
 		g := p.Graph(f)
@@ -423,6 +427,15 @@ func runC09(c *RuleCtx) {
 		idEq := AtomCmp("rec.PeerID == p", func(v *V) bool { return v.Kind == "field" && strings.HasSuffix(v.Name, "PeerRecord.PeerID") }, "==", func(v *V) bool {
 			return stripConv(v).IsField("pb.PeerInfo.PeerID")
 		})
+		// the envelope is self-signed: ConsumeEnvelope verifies the signature against the key embedded in the
+		// envelope, so the record is "valid for the advertised peer ID" only if that key is the peer's own
+		keyOK := AtomBool("peer ID matches the envelope's public key", func(v *V) bool {
+			if !v.IsCall(p2p+"core/peer.ID.MatchesPublicKey") && !(v.Kind == "call" && strings.HasSuffix(v.Name, "peer.ID.MatchesPublicKey")) {
+				// equivalent: peer.IDFromPublicKey(envelope.PublicKey) compared with p is handled by idFromKey below
+				return false
+			}
+			return v.Has(func(x *V) bool { return x.Kind == "field" && strings.HasSuffix(x.Name, "Envelope.PublicKey") })
+		})
 		n := 0
 		for _, ap := range p.localAppends(f) {
 			v := p.R(f).Val(ap.Call.Args[len(ap.Call.Args)-1])
@@ -430,7 +443,7 @@ func runC09(c *RuleCtx) {
 				continue
 			}
 			n++
-			for _, a := range []Atom{envOK, isRec, idEq} {
+			for _, a := range []Atom{envOK, isRec, idEq, keyOK} {
 				ok, why := p.DomAny(f, ap.Stmt, AtomWant{noRec, true}, AtomWant{a, true})
 				c.Check(ok, "G12", f.Name, "connect only without record or with "+a.Desc, ap.Stmt, why, why)
 			}
